@@ -161,6 +161,19 @@ def make_scenario(r):
     if not (path == "factory" and kind in gen.NO_ID_FACTORY) and not (path == "conv" and kind in gen.NO_ID_FACTORY):
         for _ in range(r.randint(0, 2)):
             extras.append([r.choice(["prov:type", "prov:label", "ex:tag", "prov:value", "prov:role", "ex2:n"]), rand_plain_value(r)])
+    if extras is not None and not (path == "factory" and kind in gen.NO_ID_FACTORY) and not (path == "conv" and kind in gen.NO_ID_FACTORY) and r.random() < 0.15:
+        # a tie inside the creating call: an application attribute whose value is a plain string spelt exactly like one of the
+        # formal arguments of the same call (a name given as 'ex:e1', a time given as ISO text)
+        cands = [f for f in create if (f in gen.TIME_ATTRS) or create[f]["ref"]["ns"] != ""]
+        if cands:
+            f = r.choice(cands)
+            if f in gen.TIME_ATTRS:
+                create[f]["as"] = "iso"
+                tie = {"k": "tie_time", "t": dict(create[f])}
+            else:
+                create[f]["rep"] = "str"
+                tie = {"k": "tie_ref", "ref": create[f]["ref"]}
+            extras.insert(r.randint(0, len(extras)), [r.choice(["ex:tag", "prov:value", "ex2:n"]), tie])
     calls = []
     for _ in range(r.randint(1, 6)):
         x = r.random()
@@ -178,6 +191,12 @@ def make_scenario(r):
                         if f in create and r.random() < 0.5:
                             v = dict(create[f])
                             v["as"] = r.choice(["dt", "iso", "iso_z"])   # same value, other representation
+                        elif f in create and r.random() < 0.2:
+                            # the same wall-clock reading, once without and once with a UTC offset (that of the process's own time
+                            # zone among them): two different values, as datetime's own comparison has it
+                            v = dict(create[f])
+                            v["tz"] = r.choice([0, 60]) if v["tz"] is None else None
+                            v["as"] = r.choice(["dt", "iso"])
                         else:
                             v = rand_time(r)
                         pairs.append(["prov:" + f, {"time": v}, r.choice(["qn", "str"])])
@@ -197,6 +216,18 @@ def make_scenario(r):
                         pairs.append(["prov:" + f, {"ref": ref, "rep": rand_rep(r, ref)}, "qn"])
                 else:
                     pairs.append([r.choice(["prov:type", "prov:label", "ex:tag", "prov:value", "ex2:n", "prov:location"]), {"val": rand_plain_value(r)}, r.choice(["qn", "str"])])
+            if r.random() < 0.15:
+                # the same tie inside one add_attributes call, before or after the formal pair
+                forms = [p_ for p_ in pairs if p_[0].startswith("prov:") and (("time" in p_[1]) or ("ref" in p_[1] and p_[1]["ref"]["ns"] != ""))]
+                if forms:
+                    fp = r.choice(forms)
+                    if "time" in fp[1]:
+                        fp[1]["time"]["as"] = "iso"
+                        tie = {"k": "tie_time", "t": dict(fp[1]["time"])}
+                    else:
+                        fp[1]["rep"] = "str"
+                        tie = {"k": "tie_ref", "ref": fp[1]["ref"]}
+                    pairs.insert(r.randint(0, len(pairs)), [r.choice(["ex:tag", "ex2:n"]), {"val": tie}, r.choice(["qn", "str"])])
             calls.append({"m": "add_attributes", "form": r.choice(["dict", "list"]), "pairs": pairs})
     # less-travelled forms of the creating call: other_attributes as a dict, attribute names as strings, the PROV-DM alias of the
     # factory (wasGeneratedBy for generation ...), keyword arguments, and the subtype factories (revision / quotation /
@@ -322,6 +353,13 @@ class Driver:
         k = v["k"]
         if k in ("str", "int", "float", "bool"):
             return v["v"], v["v"]
+        if k == "tie_ref":
+            # a plain string that reads exactly like the spelling of a formal argument of the same call: it stays a string
+            text = "%s:%s" % (v["ref"]["ns"], v["ref"]["local"])
+            return text, text
+        if k == "tie_time":
+            text, _dt = self.time_value(v["t"])
+            return text, text
         if k == "dt":
             _lib, dt = self.time_value(v)
             return dt, dt
@@ -737,7 +775,7 @@ LEVEL_TEXT = ("Exploration by runtime monitoring: the NF monitor evaluates the n
               "Python value for every (attribute, value) of generated call sequences over all 18 kinds, all entry paths and all accepted "
               "representations (record object, QualifiedName under other prefixes/objects, 'p:l', bare, full URI; datetime / ISO string; "
               "Literal(lex, xsd:T) vs native). Also evaluated over API programs and the shipped corpus files."
-              " Since rounds 4-8 the creating call also goes through subtype factories, alias methods, keyword arguments and dict-form attributes; records are read between calls; the rules are also judged on records of documents built in another process (pickle) and on a long-lived collector that receives record objects of short-lived documents.")
+              " Since rounds 4-8 the creating call also goes through subtype factories, alias methods, keyword arguments and dict-form attributes; records are read between calls; the rules are also judged on records of documents built in another process (pickle) and on a long-lived collector that receives record objects of short-lived documents. About 30% of the scenarios carry a tie: an application attribute whose value is a plain string spelt exactly like a formal argument of the same call, or a second time with the same wall-clock reading with / without a UTC offset.")
 LEVEL_NOTE = ("Trusted: the shadow model (sequential, non-atomic application as the statement allows), our own table of PROV formal attributes "
               "and of the lexical spaces of the 7 native datatypes. The multi-member membership path is exempt exactly as the quantifier says.")
 DESIGN_REF = "DESIGN.md section 5 (NF) and section 6, C05"
